@@ -550,6 +550,6 @@ def shards(tier, props, known):
     out = [("make_gitcfg", "one-command", dict(nsteps=1, mixed_scopes=False, full_init=True, **kw)),
            ("make_gitcfg", "two-commands", dict(nsteps=2, mixed_scopes=False, full_init=False, **kw))]
     if tier != "quick":
-        out.append(("make_gitcfg", "two-commands-mixed-scopes", dict(nsteps=2, mixed_scopes=True, full_init=True, **kw)))
+        out.append(("make_gitcfg", "two-commands-mixed-scopes", dict(nsteps=2, mixed_scopes=True, full_init=False, **kw)))
         out.append(("make_gitcfg", "three-commands", dict(nsteps=3, mixed_scopes=False, full_init=False, **kw)))
     return out
